@@ -30,6 +30,7 @@
    proofs/RulesBuilderProofs.v proves that Get panics there. *)
 From Coq Require Import List NArith Bool String.
 From JV.lib Require Import Bytes.
+From JV.model Require Import OrderedMap.
 Import ListNotations.
 
 Section RulesBuilder.
@@ -99,6 +100,12 @@ Section RulesBuilder.
   (* Each: fn(v.Key, v) for v in data (the Go loop stops at the first error the callback returns; this is
      what a callback that never fails is shown) *)
   Definition rs_each (s : rstate) : list (K * rule) := map (fun r => (rkey r, r)) (rdata s).
+
+  (* Each with a callback that may fail: for _, v := range data { if err := fn(v.Key, v); err != nil { return err } }
+     - the entries the callback was called on (the failing one included) and whether an error came back
+     (the loop of OrderedMap.until_loop) *)
+  Definition rs_each_until (stop : K -> rule -> bool) (s : rstate) : list (K * rule) * bool :=
+    until_loop K rule stop (rs_each s).
 
   (* MarshalJSON: json.Marshal(data), an array in data order *)
   Definition rs_marshal (s : rstate) : list rule := rdata s.
@@ -233,7 +240,8 @@ Inductive robs : Type :=
 | ROGet (r : gres (option (bytes * bytes)))
 | ROBool (b : bool)
 | ROLen (n : nat)
-| ROPairs (kvs : list (bytes * bytes)).    (* Each, MarshalJSON: (Key, value) in data order *)
+| ROPairs (kvs : list (bytes * bytes))     (* Each, MarshalJSON: (Key, value) in data order *)
+| ROVisit (kvs : list (bytes * bytes)) (stopped : bool).  (* Each with a failing callback *)
 
 (* script language of the `rules` command *)
 Inductive rcmd : Type :=
@@ -243,6 +251,8 @@ Inductive rcmd : Type :=
 | RCHas (k : bytes)
 | RCLen
 | RCEach
+| RCEachStopKey (k : bytes)                (* Each, callback fails at the first rule whose Key is k *)
+| RCEachStopVal (v : bytes)                (* Each, callback fails at the first rule whose value is v *)
 | RCMarshal.
 
 Definition rule_pair (r : brule) : bytes * bytes := (rkey r, rval r).
@@ -258,6 +268,12 @@ Definition rcmd_step (s : bstate) (c : rcmd) : bstate * robs :=
   | RCHas k => (s, ROBool (rs_has _ _ beq (rb_rules _ _ s) k))
   | RCLen => (s, ROLen (rs_len _ _ (rb_rules _ _ s)))
   | RCEach => (s, ROPairs (map (fun kr => (fst kr, rval (snd kr))) (rs_each _ _ (rb_rules _ _ s))))
+  | RCEachStopKey k =>
+    let (vis, st) := rs_each_until _ _ (fun k' _ => beq k' k) (rb_rules _ _ s) in
+    (s, ROVisit (map (fun kr => (fst kr, rval (snd kr))) vis) st)
+  | RCEachStopVal v =>
+    let (vis, st) := rs_each_until _ _ (fun _ r => beq (rval r) v) (rb_rules _ _ s) in
+    (s, ROVisit (map (fun kr => (fst kr, rval (snd kr))) vis) st)
   | RCMarshal => (s, ROPairs (map rule_pair (rs_marshal _ _ (rb_rules _ _ s))))
   end.
 
